@@ -82,7 +82,9 @@ def detect(name, checks):
             print(name, c, "exit", rc, viol[:1])
     finally:
         sh("git checkout -- .", "/repo")
-    meta["detection"] = res
+    det = meta.get("detection", {})
+    det.update(res)
+    meta["detection"] = det
     json.dump(meta, open(os.path.join(dst, "meta.json"), "w"), indent=1)
 
 if __name__ == "__main__":
